@@ -267,10 +267,13 @@ class Parser:
             if self.kw("IN"):
                 self.next()
                 self.expect("op", "(")
-                if self.kw("SELECT") or self.kw("WITH"):
-                    raise ParseError("bare subquery after IN")
                 items = []
-                if not self.op(")"):
+                if self.kw("SELECT") or self.kw("WITH"):
+                    # x IN ( SELECT .. ): the query written in place (fingerprintsQuery's exclusions)
+                    saved = dict(self.ctes)
+                    items = [("SubQ", self.select())]
+                    self.ctes = saved
+                elif not self.op(")"):
                     items = [self.in_item()]
                     while self.op(","):
                         self.next()
@@ -428,6 +431,15 @@ def sx_matchers(ms):
     return sx_list(["(%s %s %s)" % (sx_str(m["n"]), OPS[m["op"]], sx_str(m["v"])) for m in ms or []])
 
 
+def sx_empty_table(ms):
+    """labels.Matcher.Matches("") of the regex matchers, as the table (pattern, "", anchored match) the planner model asks"""
+    out = {}
+    for m in ms or []:
+        if m["op"] in ("=~", "!~") and "e" in m:
+            out[m["v"]] = m["e"] if m["op"] == "=~" else not m["e"]
+    return sx_list(["(%s %s %s)" % (sx_str(p), sx_str(""), sx_bool(b)) for p, b in sorted(out.items())])
+
+
 def sx_ctx(c, t):
     return "(%d %d %d %s %d %s %s %s %s %s)" % (c["from_ns"], c["to_ns"], c["limit"], sx_bool(c["cluster"]), c["type"],
                                                 sx_str(t["gin"]), sx_str(t["samples"]), sx_str(t["ts"]), sx_str(t["ts_dist"]), sx_str(t["m15"]))
@@ -556,10 +568,11 @@ def run_shard(ck, cases, idx):
         cid = c["id"]
         t = c.get("tables")
         if c["kind"] == "sql" and t:
-            lines.append("(sql %d %s %s %s %s)" % (cid, {"raw": "KRaw", "down": "KDownsample"}[c["sub"]], sx_hints(c["hints"]),
-                                                   sx_ctx(c["ctx"], t), sx_matchers(c.get("ms"))))
+            lines.append("(sql %d %s %s %s %s %s)" % (cid, {"raw": "KRaw", "down": "KDownsample"}[c["sub"]], sx_hints(c["hints"]),
+                                                      sx_ctx(c["ctx"], t), sx_matchers(c.get("ms")), sx_empty_table(c.get("ms"))))
         if c["kind"] == "querier" and t:
-            lines.append("(sql %d KQuerier %s %s %s)" % (cid, sx_hints(c["hints"]), sx_ctx(c["ctx"], t), sx_matchers(c.get("ms"))))
+            lines.append("(sql %d KQuerier %s %s %s %s)" % (cid, sx_hints(c["hints"]), sx_ctx(c["ctx"], t), sx_matchers(c.get("ms")),
+                                                            sx_empty_table(c.get("ms"))))
         if c["kind"] == "prof" and t and c.get("err") not in ("parse", "unquote"):
             lines.append("(prof %d %s %d %d %s %s)" % (cid, sx_str(t["prof_gin"]), c["ctx"]["from_ns"], c["ctx"]["to_ns"], sx_bool(c["ctx"]["cluster"]),
                                                        sx_list(["(%s %s %s)" % (sx_str(x["n"]), OPS[x["op"]], sx_str(x["v"])) for x in c.get("sels") or []])))
@@ -596,8 +609,9 @@ def run_shard(ck, cases, idx):
                 canon, fps = sort_in_list(c["sql_labels"])
                 c["sql_labels_canon"] = canon
                 lines.append("(lbl %d %s %s %d %d)" % (cid, cl, sx_list([str(f) for f in fps]), h["start"], h["end"]))
-            # an empty matcher set renders `and ()`: not SQL, and never produced by the PromQL engine (text tie only)
-            if "samples_v3" in c["sql"] and c.get("db") and c.get("ms"):
+            # a matcher set without a matcher that rejects "" (the empty set, {env!="prod"}, ..) is refused by the PromQL
+            # parser; the planner renders `or ()` for it: not SQL (text tie only)
+            if "samples_v3" in c["sql"] and c.get("db") and any(not m.get("e") for m in c.get("ms") or []):
                 try:
                     tree = sx_select(parse_sql(c["sql"]))
                 except (ParseError, IndexError, RecursionError) as ex:
